@@ -592,6 +592,15 @@ theorem offline_ok_complete {served : List (Etag × Text)} {c : Cache} (hs : Sou
     (h : fetchOffline c = .ok bs) : ∃ e, (e, bs) ∈ served :=
   fetchOffline_served hs h
 
+/-- **requests per operation on the cache path**: one GET of the caller through `fetchAndCache` sends at most
+one HEAD and at most one GET — there are no retries here: a fault during the copy is an error of the
+operation (and a later operation starts over) -/
+theorem cache_requests_bounded (cl : Callers) (hasMemo : Bool) (s : Srv) (c : Cache) (initial : Option Etag)
+    (script : List XConn) (sz : Nat → Nat) :
+    headCount (fetchAndCache cl hasMemo s c initial script sz).2.2.2 ≤ 1 ∧
+    getCount (fetchAndCache cl hasMemo s c initial script sz).2.2.2 ≤ 1 :=
+  fetchAndCache_evs cl hasMemo s c initial script sz
+
 /-! ## histories: repository updates, new processes, online / offline / cache-less operations -/
 
 /-- the directory is sound and the server's current revision is on record -/
